@@ -220,7 +220,11 @@ impl FileLogWriterBuilder {
 
     pub(super) fn try_build_state(&self) -> Result<State, FlexiLoggerError> {
         // make sure the folder exists or create it
-        let dir = self.file_spec.get_directory();
+        // a path without a directory part (e.g. from FileSpec::try_from("foo.log")) means the current folder
+        let mut dir = self.file_spec.get_directory();
+        if dir.as_os_str().is_empty() {
+            dir.push(".");
+        }
         let p_directory = Path::new(&dir);
         std::fs::create_dir_all(p_directory)?;
         if !std::fs::metadata(p_directory)?.is_dir() {
